@@ -101,6 +101,17 @@ func GenerateStratum(rng *rand.Rand, stratum string) *uni.Universe {
 			seen[s] = true
 			vers[p] = append(vers[p], s)
 		}
+		// Versions of equal precedence that differ in build metadata only.
+		if rng.Intn(6) == 0 {
+			base := vers[p][rng.Intn(len(vers[p]))]
+			for _, b := range []string{"+build.1", "+build.2"} {
+				if rng.Intn(3) > 0 && !seen[base+b] {
+					seen[base+b] = true
+					vers[p] = append(vers[p], base+b)
+				}
+			}
+			nv = len(vers[p])
+		}
 		lat := -1
 		if rng.Intn(3) == 0 {
 			lat = rng.Intn(nv)
